@@ -158,6 +158,16 @@ theorem C16.same_after_rescheduling (s : State) (clock : Int) (ref : DT) (raises
       batch.foldl (SV.postOne ref) (batch.foldl (SV.runOne clock raises []) (s, [])).1 := by
   rw [C16.same_as_sequential s clock raises batch sched hq hr]
 
+/-- **work conserving**: the batch is one shared queue — whenever a job is still queued, any worker
+    that is not inside a callback (and has not returned) takes the head of the queue with its next
+    step, whatever the other workers are blocked on; so a callback that waits for a later job of the
+    batch is released as long as one other worker exists -/
+theorem C16.work_conserving (s : PState) (w j : Nat) (q : List Nat) (hq : s.queue = j :: q)
+    (hidle : s.running.lookup w = none) (hx : s.exited.contains w = false) :
+    (Pool.step s w).queue = q ∧ (Pool.step s w).running = (w, j) :: s.running ∧ (Pool.step s w).done = s.done := by
+  have hx' : w ∉ s.exited := by simpa using hx
+  simp [Pool.step, hx', hidle, hq]
+
 /-- **at most `m` callbacks at the same time**: only the `m` workers of the pool ever run jobs -/
 theorem C16.at_most_m (s : PState) (h : OneEach s) (m : Nat) (hw : ∀ p ∈ s.running, p.1 < m) :
     s.running.length ≤ m := by
